@@ -4,9 +4,13 @@
    (interpreter/coverage.go over a small statement language), Model/TestRunInst.v (the instance run
    against `falco test`); proofs in Proofs/TestRun*.v. *)
 From Coq Require Import List NArith Bool Permutation.
+From Coq Require Strings.String.
+Import Strings.String.StringSyntax.
+Delimit Scope string_scope with string.
 From Falco Require Import Base.Res Model.StoreSyntax Model.Store Proofs.StoreHeap Proofs.StoreInv
   Model.TestRun Model.TestRunCover Model.TestRunInst
-  Proofs.TestRunProofs Proofs.TestRunCoverProofs Proofs.TestRunBridge.
+  Proofs.TestRunProofs Proofs.TestRunCoverProofs Proofs.TestRunBridge
+  Gen.TestRunHelpers Proofs.TestRunHelpersTie.
 Import ListNotations.
 
 (* A test body (any sequence of statements and assertions, any interpreter) is reported failed
@@ -61,6 +65,38 @@ Theorem C10_subset_independent :
       fst (run_file scope logline istate body run_body init ts c0) =
       before ++ cases_of scope logline istate body run_body init t ++ after.
 Proof. exact subset_independent. Qed.
+
+(* A test that does not run - @skip, or filtered out by its @tag under the -t option - influences nothing:
+   the executed cases, the assertion / pass / fail counters and the exit status are those of the file with
+   every such test REMOVED (only the number of skipped cases differs).  [untag cli] is what the runner makes of
+   a tagged test; [C10_tag_table] is the table of docs/testing.md. *)
+Theorem C10_skipped_influence_nothing :
+  forall (scope logline istate body : Type) run_body (init : istate) (ts : list (test scope body)),
+    let r := run_file scope logline istate body run_body init ts c0 in
+    let r' := run_file scope logline istate body run_body init (filter (executed scope body) ts) c0 in
+    filter (fun x => negb (tc_skip x)) (fst r) = fst r' /\
+    asserts (snd r) = asserts (snd r') /\ passes (snd r) = passes (snd r') /\ fails (snd r) = fails (snd r') /\
+    exit_status (snd r) = exit_status (snd r').
+Proof. exact skipped_influence_nothing. Qed.
+
+Theorem C10_filtered_tests_influence_nothing :
+  forall (scope logline istate body : Type) run_body (init : istate) (cli : list N) (tts : list (list tag * test scope body)),
+    let r := run_file scope logline istate body run_body init (map (untag cli) tts) c0 in
+    let r' := run_file scope logline istate body run_body init (filter (executed scope body) (map (untag cli) tts)) c0 in
+    filter (fun x => negb (tc_skip x)) (fst r) = fst r' /\ fails (snd r) = fails (snd r') /\
+    exit_status (snd r) = exit_status (snd r').
+Proof.
+  exact (fun scope logline istate body run_body init cli tts =>
+    match skipped_influence_nothing scope logline istate body run_body init (map (untag cli) tts) with
+    | conj A (conj _ (conj _ (conj D E))) => conj A (conj D E) end).
+Qed.
+
+Theorem C10_tag_table :
+  forall p d : N, p <> d ->
+    tag_runs [(p, false)] [] = false /\ tag_runs [(p, false)] [p] = true /\ tag_runs [(p, false)] [d] = false /\
+    tag_runs [(p, true)] [] = true /\ tag_runs [(p, true)] [p] = false /\ tag_runs [(p, true)] [d] = true /\
+    tag_runs [] [] = true /\ tag_runs [] [p] = true /\ tag_runs [] [d] = true.
+Proof. exact tag_table. Qed.
 
 (* ---- with describe groups and before_/after_ hooks (any interpreter, any bodies).
    The claim of independence is about UNGROUPED tests and about groups AS UNITS:
@@ -147,12 +183,34 @@ Theorem C10_coverage_independent_instance :
   forall P ts, irun_file true P ts = irun_file false P ts.
 Proof. exact inst_coverage_independent. Qed.
 
+(* The registry of test-only functions, regenerated from tester/function/functions.go on every run
+   (Gen/TestRunHelpers.v): every name is wired to its own implementation (`assert.equal_fold` to
+   Assert_equal_fold, ...; the coverage.* markers to Coverage), and exactly the assert* functions
+   report to the pass / fail counter - the runner model lets only [Assert] steps move the verdict. *)
+Theorem C10_helpers_wired :
+  forall e, In e helpers ->
+    (is_coverage (fst e) = false -> fst (snd e) = [canon (fst e)]) /\
+    (snd (snd e) = true <-> is_assert (fst e) = true).
+Proof. exact helpers_wired. Qed.
+
+Theorem C10_helper_names_distinct : nodupb (map fst helpers) = true.
+Proof. exact helpers_names_distinct. Qed.
+
+(* witnesses: the repaired entry is in the table, and the entry as it was before the repair is refused *)
+Theorem C10_equal_fold_wired_example :
+  In ("assert.equal_fold", (["Assert_equal_fold"], true))%string helpers /\
+  wiredb ("assert.equal_fold", (["Assert_equal"], true))%string = false.
+Proof. exact (conj equal_fold_wired equal_fold_miswired_refused). Qed.
+
 Print Assumptions C10_verdict_iff.
 Print Assumptions C10_exit_iff_fail.
 Print Assumptions C10_exit_zero_iff.
 Print Assumptions C10_count_sum.
 Print Assumptions C10_order_independent.
 Print Assumptions C10_subset_independent.
+Print Assumptions C10_skipped_influence_nothing.
+Print Assumptions C10_filtered_tests_influence_nothing.
+Print Assumptions C10_tag_table.
 Print Assumptions C10_items_order_independent.
 Print Assumptions C10_items_subset_independent.
 Print Assumptions C10_ungrouped_item.
@@ -162,3 +220,6 @@ Print Assumptions C10_instrument_equiv.
 Print Assumptions C10_instrument_regroup_refuted.
 Print Assumptions C10_quiet_condition_in_store_model.
 Print Assumptions C10_coverage_independent_instance.
+Print Assumptions C10_helpers_wired.
+Print Assumptions C10_helper_names_distinct.
+Print Assumptions C10_equal_fold_wired_example.
